@@ -57,10 +57,54 @@ theorem key_for_class (cls : Cls) :
     (if (cls == .response || cls == .error) then MiSt.validRemote else MiSt.validLocal) = validFor cls := by
   cases cls <;> rfl
 
-/-- A STUN datagram without a valid protecting MESSAGE-INTEGRITY (none at all, only behind a FINGERPRINT, wrong key, other
-password, truncated) is dropped: the state is returned unchanged and the only possible outputs are warnings. -/
-theorem react_unauthenticated (s : St) (d : Datagram) (h : d.unauthenticated = true) :
-    (react s d).1 = s ∧ ∀ o ∈ (react s d).2, isIntegrityWarning o = true := by
+/-- Peer path: a STUN message without a valid protecting MESSAGE-INTEGRITY (none at all, only behind a FINGERPRINT, wrong key,
+other or superseded password, truncated) is dropped: the state is returned unchanged and the only possible outputs are warnings. -/
+theorem reactPeer_unauthenticated (s : St) (src : Nat) (m : Stun) (h : protectingMi m.attrs ≠ some (validFor m.cls)) :
+    (reactPeer s src m).1 = s ∧ ∀ o ∈ (reactPeer s src m).2, isIntegrityWarning o = true := by
+  simp only [reactPeer]
+  split
+  · simp
+  · split
+    · simp [isIntegrityWarning]
+    · rename_i hpre
+      split
+      · simp [isIntegrityWarning]
+      · simp [isIntegrityWarning]
+      · simp [isIntegrityWarning]
+      · simp
+      · rename_i hdec
+        exfalso
+        have hpre' : prescan m.attrs = true := by simpa using hpre
+        obtain ⟨st, hp, hc⟩ := accept_implies_protected _ m.attrs hpre' hdec
+        rw [miCheck_ok, key_for_class] at hc
+        exact h (by rw [hp, hc])
+
+/-- outputs that neither answer the sender nor touch connectivity: log lines and STUN-server discovery results -/
+def isHarmlessOut : Out → Bool
+  | .accepted => true
+  | .warnBadMi => true
+  | .warnNoMi => true
+  | .warnBadFp => true
+  | .warnTruncAttr => true
+  | .warnNoReflexive => true
+  | .localCandidate _ => true
+  | .gatheringComplete => true
+  | _ => false
+
+/-- STUN-server path: only the discovery bookkeeping changes -/
+theorem reactServer_view (s : St) (m : Stun) :
+    connView (reactServer s m).1 = connView s ∧ (reactServer s m).1.fallback = s.fallback ∧
+    (reactServer s m).1.active = s.active ∧ ∀ o ∈ (reactServer s m).2, isHarmlessOut o = true := by
+  simp only [reactServer]
+  repeat' split
+  all_goals simp [connView, St.connected, isHarmlessOut]
+  all_goals (try (intro o ho; rcases ho with rfl | rfl <;> rfl))
+
+/-- Every unauthenticated datagram, in every state: the connectivity view, the selected and the fallback pair are unchanged and
+the outputs are harmless (nothing is sent, no pair changes, no `connected`). -/
+theorem react_unauthenticated_view (s : St) (d : Datagram) (h : d.unauthenticated = true) :
+    connView (react s d).1 = connView s ∧ (react s d).1.fallback = s.fallback ∧
+    ∀ o ∈ (react s d).2, isHarmlessOut o = true := by
   obtain ⟨src, kind⟩ := d
   cases kind with
   | nonStun p => simp [Datagram.unauthenticated] at h
@@ -69,26 +113,276 @@ theorem react_unauthenticated (s : St) (d : Datagram) (h : d.unauthenticated = t
     simp only [react]
     split
     · simp
-    · split
-      · simp [isIntegrityWarning]
-      · rename_i hpre
-        split
-        · simp [isIntegrityWarning]
-        · simp [isIntegrityWarning]
-        · simp [isIntegrityWarning]
-        · simp
-        · rename_i hdec
-          exfalso
-          have hpre' : prescan m.attrs = true := by simpa using hpre
-          obtain ⟨st, hp, hc⟩ := accept_implies_protected _ m.attrs hpre' hdec
-          rw [miCheck_ok, key_for_class] at hc
-          exact h (by rw [hp, hc])
+    split
+    · have h1 := reactServer_view s m
+      exact ⟨h1.1, h1.2.1, h1.2.2.2⟩
+    · have h1 := reactPeer_unauthenticated s src m h
+      refine ⟨by rw [h1.1], by rw [h1.1], ?_⟩
+      intro o ho
+      have h2 := h1.2 o ho
+      cases o <;> simp_all [isIntegrityWarning, isHarmlessOut]
 
-/-- one unauthenticated operation: state unchanged, outputs are only integrity warnings -/
-theorem step_unauthenticated (s : St) (op : Op) (h : op.unauthenticated = true) :
+/-- … and when the datagram does not carry the id of an outstanding STUN-server transaction the state is literally unchanged and
+the only outputs are warnings -/
+theorem react_unauthenticated (s : St) (d : Datagram) (h : d.unauthenticated = true)
+    (hs : ∀ m, d.kind = .stun m → s.stunTx.contains m.txid = false) :
+    (react s d).1 = s ∧ ∀ o ∈ (react s d).2, isIntegrityWarning o = true := by
+  obtain ⟨src, kind⟩ := d
+  cases kind with
+  | nonStun p => simp [Datagram.unauthenticated] at h
+  | stun m =>
+    simp only [Datagram.unauthenticated, bne_iff_ne, ne_eq] at h
+    simp only [react, hs m rfl]
+    split
+    · simp
+    · exact reactPeer_unauthenticated s src m h
+
+/-! ### no STUN server configured (or discovery finished): `stunTx = []` is invariant -/
+
+theorem completion_stunTx (s : St) (r : Nat) : (completion s r).1.stunTx = s.stunTx := by
+  unfold completion
+  repeat' split
+  all_goals simp_all
+
+theorem checkCandidates_stunTx (s : St) : (checkCandidates s).1.stunTx = s.stunTx := by
+  unfold checkCandidates
+  repeat' split
+  all_goals simp_all [performCheck]
+
+theorem handleRequest_stunTx (s : St) (src : Nat) (m : Stun) : (handleRequest s src m).1.stunTx = s.stunTx := by
+  unfold handleRequest
+  split
+  · rfl
+  split
+  · rfl
+  simp only []
+  rw [completion_stunTx]
+  repeat' split
+  all_goals simp_all [performCheck, St.addPair]
+
+theorem handleResponse_stunTx (s : St) (src : Nat) (m : Stun) : (handleResponse s src m).1.stunTx = s.stunTx := by
+  unfold handleResponse
+  repeat' split
+  all_goals first | rfl | (rw [completion_stunTx]) | simp_all
+
+theorem reactPeer_stunTx (s : St) (src : Nat) (m : Stun) : (reactPeer s src m).1.stunTx = s.stunTx := by
+  simp only [reactPeer]
+  split
+  · rfl
+  split
+  · rfl
+  cases decodeWalk (m.cls == .response || m.cls == .error) false m.attrs with
+  | badMi => rfl
+  | badFp => rfl
+  | truncAttr => rfl
+  | silent => rfl
+  | ok =>
+    simp only []
+    split
+    · rfl
+    cases m.cls with
+    | request => exact handleRequest_stunTx _ _ _
+    | indication => rfl
+    | response => exact handleResponse_stunTx _ _ _
+    | error => exact handleResponse_stunTx _ _ _
+
+theorem completion_fallback (s : St) (r : Nat) : (completion s r).1.fallback = s.fallback := by
+  unfold completion
+  repeat' split
+  all_goals simp_all
+
+theorem checkCandidates_fallback (s : St) : (checkCandidates s).1.fallback = s.fallback := by
+  unfold checkCandidates
+  repeat' split
+  all_goals simp_all [performCheck]
+
+theorem handleRequest_fallback (s : St) (src : Nat) (m : Stun) : (handleRequest s src m).1.fallback = s.fallback := by
+  unfold handleRequest
+  split
+  · rfl
+  split
+  · rfl
+  simp only []
+  rw [completion_fallback]
+  repeat' split
+  all_goals simp_all [performCheck, St.addPair]
+
+theorem handleResponse_fallback (s : St) (src : Nat) (m : Stun) : (handleResponse s src m).1.fallback = s.fallback := by
+  unfold handleResponse
+  repeat' split
+  all_goals first | rfl | (rw [completion_fallback]) | simp_all
+
+theorem reactPeer_fallback (s : St) (src : Nat) (m : Stun) : (reactPeer s src m).1.fallback = s.fallback := by
+  simp only [reactPeer]
+  split
+  · rfl
+  split
+  · rfl
+  cases decodeWalk (m.cls == .response || m.cls == .error) false m.attrs with
+  | badMi => rfl
+  | badFp => rfl
+  | truncAttr => rfl
+  | silent => rfl
+  | ok =>
+    simp only []
+    split
+    · rfl
+    cases m.cls with
+    | request => exact handleRequest_fallback _ _ _
+    | indication => rfl
+    | response => exact handleResponse_fallback _ _ _
+    | error => exact handleResponse_fallback _ _ _
+
+theorem completion_localSrflx (s : St) (r : Nat) : (completion s r).1.localSrflx = s.localSrflx := by
+  unfold completion
+  repeat' split
+  all_goals simp_all
+
+theorem checkCandidates_localSrflx (s : St) : (checkCandidates s).1.localSrflx = s.localSrflx := by
+  unfold checkCandidates
+  repeat' split
+  all_goals simp_all [performCheck]
+
+theorem handleRequest_localSrflx (s : St) (src : Nat) (m : Stun) : (handleRequest s src m).1.localSrflx = s.localSrflx := by
+  unfold handleRequest
+  split
+  · rfl
+  split
+  · rfl
+  simp only []
+  rw [completion_localSrflx]
+  repeat' split
+  all_goals simp_all [performCheck, St.addPair]
+
+theorem handleResponse_localSrflx (s : St) (src : Nat) (m : Stun) : (handleResponse s src m).1.localSrflx = s.localSrflx := by
+  unfold handleResponse
+  repeat' split
+  all_goals first | rfl | (rw [completion_localSrflx]) | simp_all
+
+theorem reactPeer_localSrflx (s : St) (src : Nat) (m : Stun) : (reactPeer s src m).1.localSrflx = s.localSrflx := by
+  simp only [reactPeer]
+  split
+  · rfl
+  split
+  · rfl
+  cases decodeWalk (m.cls == .response || m.cls == .error) false m.attrs with
+  | badMi => rfl
+  | badFp => rfl
+  | truncAttr => rfl
+  | silent => rfl
+  | ok =>
+    simp only []
+    split
+    · rfl
+    cases m.cls with
+    | request => exact handleRequest_localSrflx _ _ _
+    | indication => rfl
+    | response => exact handleResponse_localSrflx _ _ _
+    | error => exact handleResponse_localSrflx _ _ _
+
+/-- the fallback pair changes only through `addRemoteCandidate` or a non-STUN datagram from the address of an existing pair -/
+theorem step_fallback (s : St) (op : Op) :
+    (step s op).1.fallback = s.fallback ∨
+    (∃ a pr, op = .addRemote a pr ∧ (step s op).1.fallback = some a) ∨
+    (∃ a p, op = .dgram { src := a, kind := .nonStun p } ∧ (findPair s.pairs a).isSome = true ∧ (step s op).1.fallback = some a) := by
+  cases op with
+  | dgram d =>
+    obtain ⟨src, kind⟩ := d
+    cases kind with
+    | nonStun p =>
+      simp only [step, react]
+      split
+      · exact Or.inl rfl
+      · cases hf : findPair s.pairs src with
+        | none => exact Or.inl rfl
+        | some q => exact Or.inr (Or.inr ⟨src, p, rfl, by simp [hf], rfl⟩)
+    | stun m =>
+      refine Or.inl ?_
+      simp only [step, react]
+      split
+      · rfl
+      split
+      · exact (reactServer_view s m).2.1
+      · exact reactPeer_fallback s src m
+  | tick => refine Or.inl ?_; simp only [step, tick]; split; exact checkCandidates_fallback s; rfl
+  | connect => refine Or.inl ?_; simp only [step, connect]; split; rfl; simp [checkCandidates_fallback]
+  | addRemote a pr =>
+    simp only [step, addRemote]
+    split
+    · exact Or.inl rfl
+    · cases hf : s.fallback with
+      | some f => exact Or.inl (by simp [St.addPair, hf])
+      | none => exact Or.inr (Or.inl ⟨a, pr, rfl, by simp [St.addPair, hf]⟩)
+  | txTimeout t => refine Or.inl ?_; simp only [step, txFinished]; split <;> rfl
+  | retransmit t => refine Or.inl ?_; simp only [step, retransmit, txFinished]; (repeat' split) <;> rfl
+  | sendApp p => refine Or.inl ?_; simp only [step, sendApp]; (repeat' split) <;> rfl
+  | close => exact Or.inl rfl
+  | setRemoteCreds => exact Or.inl rfl
+  | setRemoteUser => exact Or.inl rfl
+  | setRemotePassword => exact Or.inl rfl
+
+/-- a local server-reflexive candidate can only be added on the STUN-server path, by a Binding success response, and the
+transaction it answers is forgotten -/
+theorem react_localSrflx (s : St) (d : Datagram) (h : (react s d).1.localSrflx ≠ s.localSrflx) :
+    ∃ m, d.kind = .stun m ∧ s.stunTx.contains m.txid = true ∧ m.cls = .response ∧ m.method = .binding ∧
+      (react s d).1.stunTx.contains m.txid = false := by
+  obtain ⟨src, kind⟩ := d
+  cases kind with
+  | nonStun p =>
+    exfalso; apply h
+    simp only [react]
+    split
+    · rfl
+    · split <;> rfl
+  | stun m =>
+    by_cases hc : s.closed = true
+    · exfalso; apply h; simp [react, hc]
+    by_cases ht : s.stunTx.contains m.txid = true
+    · refine ⟨m, rfl, ht, ?_⟩
+      have hc' : s.closed = false := Bool.eq_false_iff.mpr hc
+      have hr : react s { src := src, kind := .stun m } = reactServer s m := by
+        simp only [react, hc', ht, Bool.false_eq_true, if_false, if_true]
+      rw [hr] at h ⊢
+      simp only [reactServer] at h ⊢
+      cases hd : decodeNoKey false m.attrs <;> simp only [hd] at h ⊢ <;> try (exact absurd rfl h)
+      by_cases hm : m.method = .binding
+      · cases hcl : m.cls <;> simp [hm, hcl] at h ⊢
+        cases hmap : m.mapped <;> simp [hmap] at h ⊢
+        split <;> simp_all
+      · exfalso; apply h; simp [hm]
+    · exfalso; apply h
+      have hc' : s.closed = false := Bool.eq_false_iff.mpr hc
+      have ht' : s.stunTx.contains m.txid = false := Bool.eq_false_iff.mpr ht
+      have hr : react s { src := src, kind := .stun m } = reactPeer s src m := by
+        simp only [react, hc', ht', Bool.false_eq_true, if_false]
+      rw [hr]; exact reactPeer_localSrflx s src m
+
+theorem step_stunTx_nil (s : St) (op : Op) (h : s.stunTx = []) : (step s op).1.stunTx = [] := by
+  cases op with
+  | dgram d =>
+    obtain ⟨src, kind⟩ := d
+    simp only [step, react]
+    split
+    · exact h
+    cases kind with
+    | nonStun p => simp only []; split <;> exact h
+    | stun m => simp only [h, List.contains_nil, Bool.false_eq_true, if_false]; rw [reactPeer_stunTx]; exact h
+  | tick => simp only [step, tick]; split; rw [checkCandidates_stunTx]; exact h; exact h
+  | connect => simp only [step, connect]; split; exact h; simp [checkCandidates_stunTx, h]
+  | addRemote a p => simp only [step, addRemote]; split <;> simp_all [St.addPair]
+  | txTimeout t => simp only [step, txFinished]; split <;> simp_all
+  | retransmit t => simp only [step, retransmit, txFinished]; repeat' split; all_goals simp_all
+  | sendApp p => simp only [step, sendApp]; (repeat' split) <;> exact h
+  | close => exact h
+  | setRemoteCreds => exact h
+  | setRemoteUser => exact h
+  | setRemotePassword => exact h
+
+/-- one unauthenticated operation, no STUN-server transaction outstanding: state unchanged, outputs are only warnings -/
+theorem step_unauthenticated (s : St) (hs : s.stunTx = []) (op : Op) (h : op.unauthenticated = true) :
     (step s op).1 = s ∧ ∀ o ∈ (step s op).2, isIntegrityWarning o = true := by
   cases op with
-  | dgram d => exact react_unauthenticated s d h
+  | dgram d => exact react_unauthenticated s d h (fun m _ => by simp [hs])
   | _ => simp [Op.unauthenticated] at h
 
 theorem filter_eq_nil_of_all_warn (l : List Out) (h : ∀ o ∈ l, isIntegrityWarning o = true) :
@@ -99,7 +393,7 @@ theorem filter_eq_nil_of_all_warn (l : List Out) (h : ∀ o ∈ l, isIntegrityWa
 
 /-- erasing the unauthenticated operations from a history changes neither the final state nor any output other than the
 integrity warnings -/
-theorem run_erase_unauthenticated (ops : List Op) (s : St) :
+theorem run_erase_unauthenticated (ops : List Op) (s : St) (hs : s.stunTx = []) :
     (run s ops).1 = (run s (ops.filter fun o => !o.unauthenticated)).1 ∧
     (run s ops).2.filter (fun o => !isIntegrityWarning o)
       = (run s (ops.filter fun o => !o.unauthenticated)).2.filter (fun o => !isIntegrityWarning o) := by
@@ -108,23 +402,23 @@ theorem run_erase_unauthenticated (ops : List Op) (s : St) :
   | cons op ops ih =>
     cases hf : op.unauthenticated with
     | true =>
-      have h1 := step_unauthenticated s op hf
+      have h1 := step_unauthenticated s hs op hf
       simp only [run, List.filter_cons, hf, Bool.not_true, Bool.false_eq_true, if_false, List.filter_append]
       rw [h1.1, filter_eq_nil_of_all_warn _ h1.2, List.nil_append]
-      exact ih s
+      exact ih s hs
     | false =>
       simp only [run, List.filter_cons, hf, Bool.not_false, if_true, List.filter_append]
-      have h2 := ih (step s op).1
+      have h2 := ih (step s op).1 (step_stunTx_nil s op hs)
       exact ⟨h2.1, by rw [h2.2]⟩
 
 /-- a history of unauthenticated operations only -/
-theorem run_all_unauthenticated (ops : List Op) (s : St) (h : ∀ op ∈ ops, op.unauthenticated = true) :
+theorem run_all_unauthenticated (ops : List Op) (s : St) (hs : s.stunTx = []) (h : ∀ op ∈ ops, op.unauthenticated = true) :
     (run s ops).1 = s ∧ ∀ o ∈ (run s ops).2, isIntegrityWarning o = true := by
   induction ops generalizing s with
   | nil => simp [run]
   | cons op ops ih =>
-    have h1 := step_unauthenticated s op (h op (by simp))
-    have h2 := ih (step s op).1 (fun o ho => h o (by simp [ho]))
+    have h1 := step_unauthenticated s hs op (h op (by simp))
+    have h2 := ih (step s op).1 (by rw [h1.1]; exact hs) (fun o ho => h o (by simp [ho]))
     simp only [run]
     refine ⟨h2.1.trans h1.1, ?_⟩
     intro o ho
@@ -164,33 +458,43 @@ theorem handleResponse_active (s : St) (src : Nat) (m : Stun) (h : s.active.isSo
   repeat' split
   all_goals first | exact h | (apply completion_active; exact h) | simp_all
 
+theorem reactPeer_active (s : St) (src : Nat) (m : Stun) (h : s.active.isSome = true) :
+    (reactPeer s src m).1.active.isSome = true := by
+  simp only [reactPeer]
+  split
+  · exact h
+  split
+  · exact h
+  cases decodeWalk (m.cls == .response || m.cls == .error) false m.attrs with
+  | badMi => exact h
+  | badFp => exact h
+  | truncAttr => exact h
+  | silent => exact h
+  | ok =>
+    simp only []
+    split
+    · exact h
+    cases m.cls with
+    | request => exact handleRequest_active _ _ _ h
+    | indication => exact h
+    | response => exact handleResponse_active _ _ _ h
+    | error => exact handleResponse_active _ _ _ h
+
 theorem react_active (s : St) (d : Datagram) (h : s.active.isSome = true) : (react s d).1.active.isSome = true := by
   obtain ⟨src, kind⟩ := d
+  simp only [react]
+  split
+  · exact h
   cases kind with
-  | nonStun p => simp only [react]; split <;> exact h
+  | nonStun p => simp only []; split <;> exact h
   | stun m =>
-    simp only [react]
+    simp only []
     split
-    · exact h
-    split
-    · exact h
-    cases decodeWalk (m.cls == .response || m.cls == .error) false m.attrs with
-    | badMi => exact h
-    | badFp => exact h
-    | truncAttr => exact h
-    | silent => exact h
-    | ok =>
-      simp only []
-      split
-      · exact h
-      cases m.cls with
-      | request => exact handleRequest_active _ _ _ h
-      | indication => exact h
-      | response => exact handleResponse_active _ _ _ h
-      | error => exact handleResponse_active _ _ _ h
+    · rw [(reactServer_view s m).2.2.1]; exact h
+    · exact reactPeer_active s src m h
 
-/-- **Connected is stable:** no operation whatsoever makes a connected component unconnected again. -/
-theorem step_active (s : St) (op : Op) (h : s.active.isSome = true) : (step s op).1.active.isSome = true := by
+/-- **Connected is stable:** no operation other than `close()` makes a connected component unconnected again. -/
+theorem step_active (s : St) (op : Op) (hop : op ≠ .close) (h : s.active.isSome = true) : (step s op).1.active.isSome = true := by
   cases op with
   | dgram d => exact react_active s d h
   | tick => simp only [step, tick]; split; rw [checkCandidates_active]; exact h; exact h
@@ -198,15 +502,18 @@ theorem step_active (s : St) (op : Op) (h : s.active.isSome = true) : (step s op
   | addRemote a p => simp only [step, addRemote]; split <;> simp_all [St.addPair]
   | txTimeout t => simp only [step, txFinished]; split <;> simp_all
   | retransmit t => simp only [step, retransmit, txFinished]; repeat' split; all_goals simp_all
-  | sendApp p => simp only [step, sendApp]; repeat' split; all_goals simp_all
+  | sendApp p => simp only [step, sendApp]; (repeat' split) <;> exact h
+  | close => exact absurd rfl hop
   | setRemoteCreds => exact h
   | setRemoteUser => exact h
   | setRemotePassword => exact h
 
-theorem run_active (ops : List Op) (s : St) (h : s.active.isSome = true) : (run s ops).1.active.isSome = true := by
+theorem run_active (ops : List Op) (s : St) (hops : ∀ op ∈ ops, op ≠ .close) (h : s.active.isSome = true) :
+    (run s ops).1.active.isSome = true := by
   induction ops generalizing s with
   | nil => exact h
-  | cons op ops ih => exact ih _ (step_active s op h)
+  | cons op ops ih =>
+    exact ih _ (fun o ho => hops o (by simp [ho])) (step_active s op (hops op (by simp)) h)
 
 /-! ### attributes behind MESSAGE-INTEGRITY -/
 theorem decodeWalk_after_ok (k : Bool) (post : List Attr) (h : ∀ a ∈ post, a.harmless = true) :
@@ -279,11 +586,11 @@ theorem handleRequest_congr (s : St) (src : Nat) (m1 m2 : Stun) (h1 : m1.roleAtt
 
 
 /-- a connected sender writes every payload to the selected pair's remote address, untouched, and its state does not change -/
-theorem run_sendApp (a : St) (dst : Nat) (h : a.active = some dst) (ps : List (List UInt8)) :
+theorem run_sendApp (a : St) (dst : Nat) (hc : a.closed = false) (h : a.active = some dst) (ps : List (List UInt8)) :
     run a (ps.map .sendApp) = (a, ps.map (Out.appSent dst)) := by
   induction ps with
   | nil => rfl
-  | cons p r ih => simp [run, step, sendApp, h, ih]
+  | cons p r ih => simp [run, step, sendApp, h, hc, ih]
 
 /-- what arrives at `dst` from those writes: the payloads as non-STUN datagrams from the sender's address, in order -/
 theorem route_appSent (a : St) (from_ dst : Nat) (ps : List (List UInt8)) :
@@ -293,17 +600,19 @@ theorem route_appSent (a : St) (from_ dst : Nat) (ps : List (List UInt8)) :
   | cons p r ih => simp [route, wire, ih]
 
 /-- a receiver hands every non-STUN datagram up unchanged and in order; its connectivity view does not change -/
-theorem run_nonStun (b : St) (src : Nat) (ps : List (List UInt8)) :
+theorem run_nonStun (b : St) (hc : b.closed = false) (src : Nat) (ps : List (List UInt8)) :
     (run b (ps.map fun p => .dgram { src := src, kind := .nonStun p })).2 = ps.map Out.appData ∧
     connView (run b (ps.map fun p => .dgram { src := src, kind := .nonStun p })).1 = connView b := by
   induction ps generalizing b with
   | nil => exact ⟨rfl, rfl⟩
   | cons p r ih =>
     have hs : connView (react b { src := src, kind := .nonStun p }).1 = connView b := by
-      simp only [react]; split <;> rfl
+      simp only [react, hc, Bool.false_eq_true, if_false]; split <;> rfl
+    have hcl : (react b { src := src, kind := .nonStun p }).1.closed = false := by
+      simp only [react, hc, Bool.false_eq_true, if_false]; split <;> first | exact hc | rfl
     have ho : (react b { src := src, kind := .nonStun p }).2 = [Out.appData p] := by
-      simp only [react]
-    have h2 := ih (react b { src := src, kind := .nonStun p }).1
+      simp only [react, hc, Bool.false_eq_true, if_false]
+    have h2 := ih (react b { src := src, kind := .nonStun p }).1 hcl
     simp only [List.map_cons, run, step]
     exact ⟨by rw [ho, h2.1]; rfl, by rw [h2.2, hs]⟩
 
